@@ -168,6 +168,8 @@ fn dispatch_shapes(ctx: &Ctx, rep: &mut Report) {
         "1;6;7;25", "2", "3", "5", "8;2;3", "8;;", "38;5;1", "38;2;1;2;3", "38:5:1", "38:2:1:2:3", "38:2::1:2:3", "48;5;255", "1;38;5;9;4",
         "0;1;2;3;4;5;7;9", "21;22;23;24;25;27;29", "30;37;39;40;47;49;90;97;100;107", "6;8;10;26;50;98;108;1000", "1:2", "4:3", "38:5", "38;5",
         "65536", "99999", "38;4", "7;38;4;9", "48;1", "38", "1;38", "38;48:5:1;4", "0;1;3;4;5;7;9;38;2;10;20;30;48;2;40;50;60",
+        // fewer parameters than the function reads (the missing ones are defaults, never leftovers)
+        "8", "8;10", "8;10;", "8;;7", "8;10;20", "8:1;10", "08;010;020",
     ]
     .iter()
     .map(|s| s.to_string())
@@ -389,7 +391,8 @@ pub fn run(ctx: &Ctx) -> Report {
     esc_fe_twins(ctx, &mut rep);
     let p = parts!(ctx.tier);
     run_part(ctx, &mut rep, &p);
-    rep.rule = "(a) every (parser state x background) x every listed Unicode scalar: next state and returned function compared with a table-driven reference parser transcribed from Williams' diagram (+ the four stated deviations), followed by a complete CUP to confirm the state; (b) every CSI final 0x40-0x7E x {no prefix, ? < = >} x 44 parameter shapes x {no intermediate, each 0x20-0x2F, two intermediates} in 7- and 8-bit form, every ESC final x intermediates, each after a parameter-heavy sequence; (b2) every SGR parameter list of <= 4 (thorough 5) parameters over 14 atoms (selectors, plain codes, parameters with sub-parameters that start like a selector, colon forms, empty); (c) every ESC Fe vs its C1 twin from every background; (d) product BFS of (real Parser, reference) over 34 class-representative tokens, dedup on the real parser's complete state".into();
+    super::stream::run(ctx, &mut rep, "C03", "stream-segmentation-through-feed_str", "feed_str-segments-like-the-table", false);
+    rep.rule = "(a) every (parser state x background) x every listed Unicode scalar: next state and returned function compared with a table-driven reference parser transcribed from Williams' diagram (+ the four stated deviations), followed by a complete CUP to confirm the state; (b) every CSI final 0x40-0x7E x {no prefix, ? < = >} x 44 parameter shapes x {no intermediate, each 0x20-0x2F, two intermediates} in 7- and 8-bit form, every ESC final x intermediates, each after a parameter-heavy sequence; (b2) every SGR parameter list of <= 4 (thorough 5) parameters over 14 atoms (selectors, plain codes, parameters with sub-parameters that start like a selector, colon forms, empty); (c) every ESC Fe vs its C1 twin from every background; (d) product BFS of (real Parser, reference) over 34 class-representative tokens, dedup on the real parser's complete state; (e) every string of <= 4 (thorough 5; one more after ESC / CSI) characters over 30 class representatives through Vt::feed_str in one call against feed() per character (the table-checked path): screen, cursor, dump()".into();
     rep.assumptions = vec![
         "functions are not compared (only states) where the statements do not fix them: > 32 parameters, > 6 sub-parameters, values > 65535, malformed SGR colour forms, a private marker combined with intermediates, charset finals other than 0/B".into(),
         "quick tier sweeps scalars < U+3000 and every 7th above; thorough sweeps all 1,112,064".into(),
@@ -416,6 +419,7 @@ pub fn replay(ctx: &Ctx, v: &Value) -> bool {
             println!("{:?}", res);
             res.is_err()
         }
+        "stream-segmentation-through-feed_str" => super::stream::replay(v, false),
         "esc-fe-twins" => {
             let mut rep = Report::new();
             esc_fe_twins(ctx, &mut rep);
